@@ -38,6 +38,14 @@ def run_verus(rs, extra, log_prefix, multiple_errors=8, rlimit=None, seed=None):
         cmd += ["--smt-option", f"smt.random_seed={seed}"]
     cmd += extra
     cmd += ["--", "--error-format=json"]
+    # VERIF_CACHE=1 (regression drivers only - seed_matrix.py, benign_run.py - never the registered commands): several properties
+    # share a unit, and the same generated text under the same command gives the same answer; keyed by the content of the file
+    ck = None
+    if os.environ.get("VERIF_CACHE"):
+        ck = os.path.join(BUILD, "cache", hashlib.sha256(open(rs, "rb").read() + repr(cmd).encode()).hexdigest() + ".json")
+        if os.path.exists(ck):
+            c = json.load(open(ck))
+            return c["out"], c["diags"], c["raw"], c["dt"], c["cmd"]
     t0 = time.time()
     p = subprocess.run(cmd, capture_output=True, text=True, cwd=BUILD)
     dt = time.time() - t0
@@ -59,6 +67,11 @@ def run_verus(rs, extra, log_prefix, multiple_errors=8, rlimit=None, seed=None):
             diags.append(json.loads(l))
         except Exception:
             raw.append(l)
+    if ck:
+        os.makedirs(os.path.dirname(ck), exist_ok=True)
+        tmp = ck + f".{os.getpid()}.tmp"
+        json.dump({"out": out, "diags": diags, "raw": raw, "dt": dt, "cmd": " ".join(cmd)}, open(tmp, "w"))
+        os.replace(tmp, ck)
     return out, diags, raw, dt, " ".join(cmd)
 
 
